@@ -73,6 +73,28 @@ class AGreater(Predicate):
         return self.x.a > self.k
 
 
+class Boom(Exception):
+    """raised by user code on purpose (fault injection through supplied predicates)"""
+
+
+FLAKY = {"countdown": None, "calls": 0}
+
+
+@dataclass(eq=False)
+class Flaky(Predicate):
+    """true for every x; raises Boom at the armed call"""
+    x: object
+
+    def __call__(self):
+        FLAKY["calls"] += 1
+        if FLAKY["countdown"] is not None:
+            FLAKY["countdown"] -= 1
+            if FLAKY["countdown"] <= 0:
+                FLAKY["countdown"] = None
+                raise Boom()
+        return True
+
+
 @symbolic_function
 def sum_ab(x, y=None):
     """never falsy (>= 1): keeps the falsy-operand finding out of the main workload"""
